@@ -3,22 +3,16 @@ tools/gen_selftest.py): reversals that `git show -R` can no longer produce
 because a later fix touched the same lines."""
 
 EXTRA = [
-    {"name": "unfix-97edeb4+a3d7ea5", "kind": "break",
-     "what": "reverts both numpy-scalar key fixes: the override is removed, numpy scalars "
+    {"name": "unfix-97edeb4+a3d7ea5+9d86ba8", "kind": "break",
+     "what": "reverts all numpy-scalar key fixes: the override is removed, numpy scalars "
              "are keyed by their bytes only again",
      "edits": [{"file": "pytato/analysis/__init__.py",
-                "old": """    def update_for_numpy_scalar(self, key_hash: Any, key: Any) -> None:
-        import numpy as np
-        if isinstance(key, np.integer):
-            # interchangeable with (and equal to) the Python int of the same
-            # value wherever expressions hold integers (indices, shapes, shifts)
-            self.update_for_int(key_hash, int(key))
-        else:
-            # bytes alone do not identify a scalar: np.float32(2) and
-            # np.int32(1073741824) have the same bytes
-            self.rec(key_hash, key.dtype.str)
-            super().update_for_numpy_scalar(key_hash, key)
-
-""",
+                "old": '    def update_for_numpy_scalar(self, key_hash: Any, key: Any) -> None:\n        import numpy as np\n        if isinstance(key, np.integer):\n            # interchangeable with (and equal to) the Python int of the same\n            # value wherever expressions hold integers (indices, shapes, shifts)\n            self.update_for_int(key_hash, int(key))\n        elif isinstance(key, np.floating) and key.dtype.itemsize <= 8:\n            # equal to (and hashed like) the Python float of the same value:\n            # less(x, 2.0) == less(x, np.float64(2.0))\n            self.update_for_float(key_hash, float(key))\n        elif isinstance(key, np.complexfloating) and key.dtype.itemsize <= 16:\n            self.update_for_complex(key_hash, complex(key))\n        else:\n            # bytes alone do not identify a scalar: np.float32(2) and\n            # np.int32(1073741824) have the same bytes\n            self.rec(key_hash, key.dtype.str)\n            super().update_for_numpy_scalar(key_hash, key)\n\n',
                 "new": ""}]},
+    {"name": "unfix-a3d7ea5", "kind": "break",
+     "what": "numpy integers are keyed with their dtype again instead of like the Python "
+             "int they equal",
+     "edits": [{"file": "pytato/analysis/__init__.py",
+                "old": '        if isinstance(key, np.integer):\n            # interchangeable with (and equal to) the Python int of the same\n            # value wherever expressions hold integers (indices, shapes, shifts)\n            self.update_for_int(key_hash, int(key))\n        elif isinstance(key, np.floating) and key.dtype.itemsize <= 8:',
+                "new": '        if isinstance(key, np.floating) and key.dtype.itemsize <= 8:'}]},
 ]
